@@ -398,6 +398,95 @@ static Result check_geometry(const J &c)
   return r;
 }
 
+// ---------------------------------------------------------------- (c') locality with sections that differ in geometry and non-uniform models
+// every coordinate has its own section (own lengths, thickness, dips); the feature carries distance-dependent temperature models
+// (slab: mass conserving / plate model / linear / adiabatic, fault: linear / adiabatic). Replacing the section of one coordinate by
+// another one may change answers only between that coordinate's two neighbours: beside the other trench segments every property
+// must stay bit-identical, whatever the models read from the sections (lengths, total length, thickness, angles).
+static J gen_locality(Chooser &ch)
+{
+  LineCase lc = gen_line(ch, 4);
+  J &f = lc.root["features"][0];
+  const std::string type = f.at("model").str();
+  const size_t nc = f.at("coordinates").size(), nseg = f.at("segments").size();
+  for (int k = 0; k < 4; ++k) f.erase(KINDS[k]);
+  for (auto &sg : f["segments"].a) { for (int k = 0; k < 4; ++k) sg.erase(KINDS[k]); sg.erase("top truncation"); }
+  g::Opt o; o.cooling_models = true; o.operations = false;
+  J tms = J::arr();
+  for (int t = 0; t < 8 && tms.size() == 0; ++t) tms = g::gen_temperature_models(ch, lc.fr, o, lc.m);
+  if (tms.size() == 0) { J tm = J::obj(); tm["model"] = "adiabatic"; tms.push(tm); }
+  f["temperature models"] = tms;
+  f["composition models"] = J::arr({uniform_model(ch, 1, type)});
+  auto plain_segments = [&]() {
+    J segs = gen_segments(ch, type, static_cast<int>(nseg), 0);
+    for (auto &sg : segs.a) sg.erase("top truncation");
+    return segs;
+  };
+  J secs = J::arr();
+  for (size_t i = 0; i < nc; ++i)
+    {
+      J sct = J::obj();
+      sct["coordinate"] = static_cast<int>(i);
+      sct["segments"] = plain_segments();
+      secs.push(sct);
+    }
+  f["sections"] = secs;
+  J c = J::obj();
+  c["world"] = lc.root.dump();
+  c["changed"] = static_cast<int>(ch.index(nc));
+  c["new_segments"] = plain_segments();
+  J pts = J::arr();
+  const int np = static_cast<int>(ch.range(15, 50));
+  const double km = lc.fr.km();
+  for (int i = 0; i < np; ++i)
+    {
+      const size_t k = ch.index(nc - 1);
+      const auto &v0 = lc.m.coords[k], &v1 = lc.m.coords[k + 1];
+      const double sf = ch.real(0.25, 0.75);
+      const double tx = v1[0] - v0[0], ty = v1[1] - v0[1], tn = std::sqrt(tx * tx + ty * ty);
+      double nx = -ty / tn, ny = tx / tn;
+      const double px = v0[0] + sf * tx, py = v0[1] + sf * ty;
+      if ((lc.m.dip_point[0] - px) * nx + (lc.m.dip_point[1] - py) * ny < 0) { nx = -nx; ny = -ny; }
+      // anywhere down the slab: horizontal offset and depth of the same order, so that the deep (tip) part is reached too
+      const double off = ch.real(2, 500) * km;
+      J pq = g::make_query(lc.fr, px + off * nx, py + off * ny, ch.chance(30) ? ch.real(1e3, 30e3) : ch.real(0.2, 1.2) * off / km * 1e3);
+      pq["k"] = static_cast<int>(k); pq["s"] = sf;
+      pts.push(pq);
+    }
+  c["points"] = pts;
+  return c;
+}
+
+static Result check_locality(const J &c)
+{
+  Result r;
+  const J root = J::parse(c.at("world").str());
+  auto A = make_world(c.at("world").str(), 1, "a");
+  const size_t changed = static_cast<size_t>(c.at("changed").num());
+  J root2 = root;
+  root2["features"][0]["sections"][changed]["segments"] = c.at("new_segments");
+  auto B = make_world(root2.dump(), 1, "b");
+  const std::string type = root.at("features")[0].at("model").str();
+  for (const auto &tm : root.at("features")[0].at("temperature models").a) r.classes.push_back(type + " / " + tm.at("model").str());
+  for (const auto &p : c.at("points").a)
+    {
+      const size_t k = static_cast<size_t>(p.at("k").num());
+      // beside trench segment k (between coordinates k and k+1, middle half): the adjacent sections are k and k+1; allowing for the
+      // bends of the trench the foot may lie one segment further, so `changed` has to be at least two coordinates away
+      const bool far = (changed + 2 <= k) || (k + 3 <= changed);
+      if (!far) continue;
+      const std::vector<double> a = A->properties(p3(p.at("p")), p.at("depth").num(), all_props());
+      const std::vector<double> b = B->properties(p3(p.at("p")), p.at("depth").num(), all_props());
+      r.inner++;
+      if (a.back() == -1 && b.back() == -1) { r.classes.push_back("outside(skipped)"); continue; }
+      r.nontrivial = true; r.inner_nt++;
+      for (size_t i = 0; i < a.size(); ++i)
+        if (!same_bits(a[i], b[i]))
+          return Result::fail("section-locality-geometry", type + ": replacing only the section of coordinate " + std::to_string(changed) + " changes value " + std::to_string(i) + " beside trench segment " + std::to_string(k) + " (fraction " + fmt(p.at("s").num()) + ") from " + fmt(a[i]) + " to " + fmt(b[i]) + "; query " + p.dump());
+    }
+  return r;
+}
+
 int main(int argc, char **argv)
 {
   return run_main("C10", argc, argv,
@@ -405,5 +494,6 @@ int main(int argc, char **argv)
     {"relayout", "slab or fault with 2..5 coordinates (bends <= 25 deg), 1..3 segments, uniform temperature/composition/grains/velocity models placed at feature, section and segment level in random combinations, sections for a random subset of coordinates with their own geometry; (a) writing the inherited models into every segment and (b) repeating the default segments in a section entry for every coordinate must not change any answer. Non-trivial: inside the feature, >=1 section override and >=1 inherited kind", 80, gen_relayout, check_relayout, 100, true, true},
     {"sections", "4..5 coordinates, every coordinate with a section carrying its own uniform temperature (same geometry); points beside the trench: value inside the hull of the adjacent sections, a section's own value beside its coordinate, and changing one section's value leaves points beyond its neighbours unchanged", 80, gen_sections, check_sections, 100, true, true},
     {"section_geometry", "straight cartesian trench with two coordinates whose sections differ in thickness and top-truncation pairs (written as default+override, override+default, or two overrides); 10..40 points generated in slab coordinates beside each coordinate (1e-6 of the trench length in) and in between: membership must follow the section's own thickness/top truncation beside its coordinate and lie within the hull of the two sections in between", 120, gen_geometry, check_geometry, 100, true, true},
+    {"section_locality", "4..5 coordinates, each with a section of its own geometry (lengths, thickness, dips), feature-level distance-dependent temperature models (slab: mass conserving / plate model / linear / adiabatic / uniform; fault: linear / adiabatic / uniform); replacing the section of one coordinate by another one must leave every property bit-identical beside trench segments at least two coordinates away. Non-trivial: point inside the feature in one of the two worlds", 80, gen_locality, check_locality, 100, true, true},
   });
 }
